@@ -69,21 +69,31 @@ class Quantile(Policy):
         super().__init__()
         self.calls = 0
 
-    def draw(self, law, shape, dtype, device):
-        n = self._log(law, shape)
+    def _grid(self, law, n):
         p = (torch.arange(n, dtype=torch.float64) + 0.5) / n
         if law == "normal":
-            v = torch.special.ndtri(p)
-        elif law == "uniform":
-            v = p
-        elif law == "exponential":
-            v = -torch.log1p(-p)
+            return torch.special.ndtri(p)
+        if law == "uniform":
+            return p
+        if law == "exponential":
+            return -torch.log1p(-p)
+        raise NotImplementedError(law)
+
+    def draw(self, law, shape, dtype, device):
+        n = self._log(law, shape)
+        shape = tuple(int(s_) for s_ in shape)
+        last = shape[-1] if shape else 1
+        if len(shape) >= 2 and last >= 1024:   # (shorter rows: the grid error of a single row would exceed the tolerance)
+            # every row (slice along the last dimension) gets its own complete quantile grid in its own permutation, so that
+            # per-row averages are exact quadratures too
+            g = self._grid(law, last)
+            rows = n // last
+            v = torch.stack([g[_perm(last, self.calls + r)] for r in range(rows)]).reshape(shape)
         else:
-            raise NotImplementedError(law)
-        v = v[_perm(n, self.calls)]
+            v = self._grid(law, n)[_perm(n, self.calls)].reshape(shape)
         self.calls += 1
         self.served += n
-        return v.to(dtype).reshape(tuple(shape)).to(device)
+        return v.to(dtype).to(device)
 
 
 class Frozen(Policy):
